@@ -482,6 +482,12 @@ def rand_value(rng):
     if r < 0.27:
         REC.cls("C19:value:zero")
         return 0.0
+    if r < 0.31:
+        import math
+
+        REC.cls("C19:value:a-rounding-step-from-a-whole-number")
+        n = float(rng.choice([3, 121, 500, 4999]))
+        return rng.choice([math.nextafter(n, math.inf), math.nextafter(n, 0), n * (1 + 4e-16), -math.nextafter(n, math.inf)])
     if r < 0.35:
         REC.cls("C19:value:tiny-or-huge")
         return rng.choice([1e-300, 3.5e-12, 1e300, 2.5e17, 5e-05])
@@ -624,6 +630,15 @@ def _workload(tier, rng, shard, nshards, work):
             f2 = rng.choice(["x1.2", "const7.0", "neg", "x10"])
             c2, i2 = rng.choice([("oral_formants", "formants"), ("oral_formants", "bandwidths"), ("frication_formants", "formants")])
             modify(kg, c2, i2, f2, FUNCS[f2], work, k + 1, i2 == "bandwidths", direct=True)
+        if k % 3 == 0:
+            # the files read at the start of this round are still as they were: opening them again - after the grids read from them
+            # have been edited in memory - gives what the files say
+            REC.cls("C19:kg:same-file-opened-again-after-edits")
+            _current.update(classes=["C19:praat-style-trailing-blank" if blank else "C19:praatio-style-no-trailing-blank"], sig=("syn-again", blank, style, nform))
+            call(klattgrid.openKlattgrid, fn)
+            if saved:
+                _current.update(classes=["C19:praatio-style-no-trailing-blank"], sig=("resaved-again", nform))
+                call(klattgrid.openKlattgrid, out)
     m = (3000 if tier == "quick" else 100000) // nshards
     for k in range(m):
         klass = rng.choice(["PointProcess", "PitchTier", "DurationTier"])
